@@ -287,6 +287,11 @@ def normalize_resources_qs_param(qs):
                    '?resources=VCPU:2,MEMORY_MB:1024. Got: %s.')
             msg = msg % rt
             raise webob.exc.HTTPBadRequest(msg)
+        if rc_name in result:
+            msg = ('Badly formed resources parameter. The resource class '
+                   '%s is named more than once.')
+            msg = msg % rc_name
+            raise webob.exc.HTTPBadRequest(msg)
         try:
             amount = int(amount)
         except ValueError:
